@@ -1177,16 +1177,25 @@ def dot(first, second):
         return first[:, :] * second[:, :]
 
     # Second case when it is Inner Product
+    def inner_product(a, b):
+        products = a * b
+        result = sum(products)
+        if products.bits < a.bits + b.bits:
+            # the products were capped to max_bits (i.e. are only correct modulo
+            # 2**max_bits), so no more bits than that of their sum are meaningful
+            result = result[:products.bits]
+        return result
+
     if first.rows == 1:
         if second.rows == 1:
-            return sum(first * second)
+            return inner_product(first, second)
         if second.columns == 1:
-            return sum(first * second.transpose())
+            return inner_product(first, second.transpose())
     elif first.columns == 1:
         if second.rows == 1:
-            return sum(first * second.transpose())
+            return inner_product(first, second.transpose())
         if second.columns == 1:
-            return sum(first * second)
+            return inner_product(first, second)
 
     # Third case when it is Matrix Multiply
     return first.__matmul__(second)
